@@ -1,0 +1,49 @@
+//go:build verif
+
+package gb
+
+// Contracts for the goblvc verifier (see /verif/DESIGN.md). Comments only.
+//
+// C13 (United Kingdom, VAT): nine digits (twelve with a branch suffix), or GD/HA and three
+// digits. The first seven digits are weighted 8..2; c = (97 - sum mod 97) mod 97 must equal the
+// next two digits (classic scheme, outside the excluded number ranges), or c shifted by 55
+// modulo 97 must (the "9755" scheme, numbers above 1000000). A number of zeros only is refused.
+//@ pin taxCodeMultipliers []int{8, 7, 6, 5, 4, 3, 2}
+//@ global len(taxCodeMultipliers) == 7 && (forall j int :: 0 <= j && j < 7 ==> taxCodeMultipliers[j] == 8 - j)
+//@ rec gbSum(val string, k int) int = ite(k <= 0, 0, gbSum(val, k - 1) + (s_byte(val, k - 1) - 48) * (9 - k))
+//@ spec gbC1(s int) int = (97 - s % 97) % 97
+//@ spec gbC2(s int) int = ite(gbC1(s) >= 55, gbC1(s) - 55, gbC1(s) + 42)
+//@ spec gbOld(n int) bool = n < 9990001 && (n < 100000 || n > 999999) && (n < 9490001 || n > 9700000)
+//@ func commercialCheck(val) (err)
+//@   requires (len(val) == 9 || len(val) == 12) && digitsIn(val, 0, len(val))
+//@   let num = dval(s_substr(val, 0, 7), 7)
+//@   let last = dval(s_substr(val, 7, 9), 2)
+//@   ensures [iff] err == nil <==> dval(val, len(val)) != 0 && ((gbC1(gbSum(val, 7)) == last && gbOld(num)) || (gbC2(gbSum(val, 7)) == last && num > 1000000))
+//@   loop 1 invariant sum == gbSum(val, idx) && sum >= 0 && sum <= 72 * idx
+//@   loop 2 invariant checkDigit <= sum && checkDigit > 0 - 97 && (sum - checkDigit) % 97 == 0 && sum == gbSum(val, 7)
+//@   loop 2 decreases checkDigit + 97
+//
+//@ func governmentDepartmentCheck(val) (err)
+//@   requires len(val) == 5 && digitsIn(val, 2, 5)
+//@   ensures [range] err == nil <==> dval(s_substr(val, 2, 5), 3) <= 499
+//@ func healthAuthorityCheck(val) (err)
+//@   requires len(val) == 5 && digitsIn(val, 2, 5)
+//@   ensures [range] err == nil <==> dval(s_substr(val, 2, 5), 3) >= 500
+//
+//@ pred gbF9(s string) bool = len(s) == 9 && digitsIn(s, 0, 9)
+//@ pred gbF12(s string) bool = len(s) == 12 && digitsIn(s, 0, 12)
+//@ pred gbGD(s string) bool = len(s) == 5 && s_byte(s, 0) == 71 && s_byte(s, 1) == 68 && digitsIn(s, 2, 5)
+//@ pred gbHA(s string) bool = len(s) == 5 && s_byte(s, 0) == 72 && s_byte(s, 1) == 65 && digitsIn(s, 2, 5)
+//@ pin taxCodeRegexps []*regexp.Regexp{regexp.MustCompile(`^\d{9}$`), regexp.MustCompile(`^\d{12}$`), regexp.MustCompile(`^GD\d{3}$`), regexp.MustCompile(`^HA\d{3}$`)}
+//@ global len(taxCodeRegexps) == 4 && taxCodeRegexps[0] != nil && taxCodeRegexps[1] != nil && taxCodeRegexps[2] != nil && taxCodeRegexps[3] != nil
+//@ global forall s string :: (reMatch(taxCodeRegexps[0], s) <==> gbF9(s)) && (reMatch(taxCodeRegexps[1], s) <==> gbF12(s)) && (reMatch(taxCodeRegexps[2], s) <==> gbGD(s)) && (reMatch(taxCodeRegexps[3], s) <==> gbHA(s))
+//@ func validateTaxCode(value) (err)
+//@   let code = unboxed(value, cbc.Code)
+//@   let num = dval(s_substr(code, 0, 7), 7)
+//@   let last = dval(s_substr(code, 7, 9), 2)
+//@   ensures [format] typeis(value, cbc.Code) && code != "" && err == nil ==> gbF9(code) || gbF12(code) || gbGD(code) || gbHA(code)
+//@   ensures [gd] typeis(value, cbc.Code) && gbGD(code) ==> (err == nil <==> dval(s_substr(code, 2, 5), 3) <= 499)
+//@   ensures [ha] typeis(value, cbc.Code) && gbHA(code) ==> (err == nil <==> dval(s_substr(code, 2, 5), 3) >= 500)
+//@   ensures [commercial] typeis(value, cbc.Code) && (gbF9(code) || gbF12(code)) ==> (err == nil <==> dval(code, len(code)) != 0 && ((gbC1(gbSum(code, 7)) == last && gbOld(num)) || (gbC2(gbSum(code, 7)) == last && num > 1000000)))
+//@   ensures [skip] !typeis(value, cbc.Code) || code == "" ==> err == nil
+//@   loop 1 invariant !match && (forall j int :: 0 <= j && j < idx ==> !reMatch(taxCodeRegexps[j], val))
